@@ -1,7 +1,7 @@
 /-
   C05 — "Two engines deliver every application message exactly once across disconnects".
   Model: Qfx.Model.Link (two `Sess` joined by lossy FIFO links, restart on the persistent store).
-  Property theorems only; the invariant and its preservation are in Qfx/Lemmas/LinkC05a–h.lean.
+  Property theorems only; the invariant and its preservation are in Qfx/Lemmas/LinkC05a–i.lean.
 
   properties.jsonl: "When two QuickFIX/Go engines are connected as initiator and acceptor and the connection is cut at
   arbitrary points, or either engine is discarded and recreated on its persistent store, every application message
